@@ -580,6 +580,16 @@ def body(ext, comment, code, comments, blanks, rng, line=None):
     return "\n".join(head + rest) + "\n" if lines else ""
 
 
+def ignored_tail(ext, comment, n, rng):
+    """n lines that the counter classifies as ignored (they count in total, in no other figure), behind an
+    ignore-next N directive or inside an ignore-start / ignore-end block (directive lines count as comments)"""
+    code = LANGS.get(ext, (None, None, "x"))[2]
+    ign = [rng.choice([code, code, "", comment + " hidden"]) for _ in range(n)]
+    if rng.random() < 0.5:
+        return "\n".join(["%s sloc-guard:ignore-next %d" % (comment, n)] + ign) + "\n"
+    return "\n".join([comment + " sloc-guard:ignore-start"] + ign + [comment + " sloc-guard:ignore-end"]) + "\n"
+
+
 class Project:
     """files: dict bytes-relpath -> text ; config: toml text ; baseline: bool ; late: files added after the baseline was written"""
 
@@ -601,8 +611,32 @@ def toml_str(s):
     return out + '"'
 
 
+def gen_big_structure(rng, ndirs=None):
+    """30-60 directories that each break max_files AND max_dirs (two results with one sort key), some of their
+    sub-directories also break max_depth (three): far more than 20 structure results with ties in the path key"""
+    P = Project()
+    P.tags |= {"bigstructure", "structure"}
+    P.max_lines = 500
+    P.config = ('version = "2"\n[content]\nmax_lines = 500\nextensions = ["rs"]\n[structure]\nmax_files = 1\nmax_dirs = 1\nmax_depth = %d\n'
+                % rng.choice([2, 3]))
+    n = ndirs or rng.randrange(30, 61)
+    for i in range(n):
+        d = b"pkg/d%02d" % i
+        P.files[d + b"/a.rs"] = "fn a() {}\n"
+        P.files[d + b"/b.rs"] = "fn b() {}\n"
+        P.files[d + b"/sub_a/c.rs"] = "fn c() {}\n"
+        P.files[d + b"/sub_b/e.rs"] = "fn e() {}\n"
+        if i % 3 == 0:       # the sub-directory itself over both limits and (with max_depth = 2) too deep
+            P.files[d + b"/sub_a/c2.rs"] = "fn c2() {}\n"
+            P.files[d + b"/sub_a/x/f.rs"] = "fn f() {}\n"
+            P.files[d + b"/sub_a/y/g.rs"] = "fn g() {}\n"
+    return P
+
+
 def gen_project(rng, kind):
     """kind: none | plain | ties | hostile | structure | baseline | customlang | mixed"""
+    if kind == "bigstructure":
+        return gen_big_structure(rng)
     P = Project()
     P.tags.add(kind)
     hostile = kind in ("hostile", "mixed") or rng.random() < 0.5
@@ -705,6 +739,9 @@ def gen_project(rng, kind):
             P.files[rel] = "x = 1\n" * max(1, code) + "# one\n" * com + "// two\n" * rng.choice([0, 1, 2]) + "\n" * bl
             continue
         P.files[rel] = body(ext, cm, max(1, code), com, bl, rng, line)
+        if rng.random() < (0.5 if kind in ("plain", "ties") else 0.25):
+            P.files[rel] += ignored_tail(ext, cm, rng.choice([1, 2, 3]), rng)
+            P.tags.add("ignored-lines")
     if kind == "ties":
         # one file per language, equal code, one directory each: ties in both breakdown keys
         for e in exts:
@@ -794,7 +831,8 @@ def gen_stats_case(rng):
         p = (d + "/" if d != "." else "./") + "f%d.rs" % i
         if rng.random() < 0.1:
             p = "f%d.rs" % i
-        files.append({"path": p, "lang": rng.choice(langs), "stats": [code + com + bl, code, com, bl]})
+        ign = rng.choice([0, 0, 1, 3])      # ignored lines count in total only
+        files.append({"path": p, "lang": rng.choice(langs), "stats": [code + com + bl + ign, code, com, bl]})
     return {"op": "stats", "files": files, "depth": rng.choice([None, None, 0, 1, 2, 3]), "reps": 6}
 
 
